@@ -2,14 +2,18 @@ import SedVerif.Drv.C01
 import SedVerif.Drv.C02
 import SedVerif.Drv.C04
 import SedVerif.Drv.C06
+import SedVerif.Drv.C07
 import SedVerif.Drv.C10
+import SedVerif.Drv.C12
 import SedVerif.Drv.C15
+import SedVerif.Drv.C16
+import SedVerif.Drv.C17
 /-!
 Line-protocol driver: `lake env lean --run Driver.lean`.  Imports only model files (no Mathlib).
 -/
 open Drv
 
-def handlers : List (String → Option (Rd String)) := [handleC01, handleC02, handleC04, handleC06, handleC10, handleC15]
+def handlers : List (String → Option (Rd String)) := [handleC01, handleC02, handleC04, handleC06, handleC07, handleC10, handleC12, handleC15, handleC16, handleC17]
 
 def dispatch (op : String) : Option (Rd String) :=
   handlers.findSome? (fun h => h op)
